@@ -128,13 +128,23 @@ fn check_string(s: &str, want_sample: bool) -> CaseResult {
                 return Err(fail("rejects-valid", format!("{s:?} must parse to {} but was rejected: {e}", canon(*w)), s));
             }
         }
-        // JSON deserialisation of the string agrees with from_str
+        // JSON deserialisation of the string agrees with from_str, however the JSON text reaches the deserializer:
+        // plain literal, fully \u-escaped literal, an owned serde_json::Value, a reader, a field of a document
         let js = serde_json::to_string(s).unwrap();
-        let de: Result<Version, _> = serde_json::from_str(&js);
-        match (&de, &want) {
-            (Ok(v), Some(w)) if v.to_string() == canon(*w) => {}
-            (Err(_), None) => {}
-            _ => return Err(fail("json-de", format!("JSON string {js} deserialised to {de:?}, reference {want:?}"), s)),
+        let escaped = format!("\"{}\"", s.chars().flat_map(|c| { let mut b = [0u16; 2]; c.encode_utf16(&mut b).iter().map(|u| format!("\\u{:04x}", u)).collect::<Vec<_>>() }).collect::<String>());
+        let routes: Vec<(&str, Result<Version, String>)> = vec![
+            ("from_str", serde_json::from_str::<Version>(&js).map_err(|e| e.to_string())),
+            ("from_str (escaped)", serde_json::from_str::<Version>(&escaped).map_err(|e| e.to_string())),
+            ("from_value", serde_json::from_value::<Version>(serde_json::Value::String(s.to_string())).map_err(|e| e.to_string())),
+            ("from_reader", serde_json::from_reader::<_, Version>(js.as_bytes()).map_err(|e| e.to_string())),
+            ("field of a document", serde_json::from_str::<std::collections::BTreeMap<String, Version>>(&format!("{{\"v\":{js}}}")).map(|m| m["v"]).map_err(|e| e.to_string())),
+        ];
+        for (route, de) in routes {
+            match (&de, &want) {
+                (Ok(v), Some(w)) if v.to_string() == canon(*w) => {}
+                (Err(_), None) => {}
+                _ => return Err(fail("json-de", format!("JSON string {js} via {route} deserialised to {de:?}, reference {want:?}"), s)),
+            }
         }
     } else {
         classes.push("ambiguous_plus");
@@ -181,6 +191,11 @@ fn check_tuple(a: [u32; 4], n: usize, want_sample: bool) -> CaseResult {
     match serde_json::from_str::<Version>(&js) {
         Ok(v2) if v2 == v => {}
         other => return Err(Failure::new("json-roundtrip", format!("JSON round trip of {v} gave {other:?}"), case)),
+    }
+    // through an owned Value as well (to_value / from_value)
+    match serde_json::to_value(v).and_then(serde_json::from_value::<Version>) {
+        Ok(v2) if v2 == v => {}
+        other => return Err(Failure::new("json-value-roundtrip", format!("to_value/from_value round trip of {v} gave {other:?}"), case)),
     }
     // value-typed JSON is rejected
     for bad in [format!("{}", a[0]), format!("[{}]", a[0]), "null".to_string(), "{}".to_string(), "true".to_string()] {
